@@ -34,7 +34,13 @@ var (
 	verifC39Streams  map[*stream.Stream]int
 	verifC39Baseline int
 	verifC39Dead     bool
+	// total time spent in waits that ran into their deadline (only happens when the code under test
+	// misbehaves); beyond the budget every op answers "harness-gave-up" so that a broken tree is
+	// reported in seconds instead of after hundreds of timeouts
+	verifC39Wasted time.Duration
 )
+
+const verifC39WasteBudget = 15 * time.Second
 
 func verifC39ParseConfs(ws []string) conf.Forward {
 	out := make(conf.Forward, 0, len(ws))
@@ -122,6 +128,7 @@ func verifC39Timed(f func()) (res string) {
 	case r := <-ch:
 		return r
 	case <-time.After(8 * time.Second):
+		verifC39Wasted += 8 * time.Second
 		return "timeout"
 	}
 }
@@ -141,7 +148,11 @@ func verifC39Observe(advanceIDs, advanceEpochs bool) string {
 				ok = false
 			}
 		}
-		if ok || time.Now().After(deadline) {
+		if ok {
+			break
+		}
+		if time.Now().After(deadline) {
+			verifC39Wasted += 1500 * time.Millisecond
 			break
 		}
 		time.Sleep(200 * time.Microsecond)
@@ -157,7 +168,11 @@ func verifC39Observe(advanceIDs, advanceEpochs bool) string {
 		counted[h] = true
 	}
 	deadline = time.Now().Add(150 * time.Millisecond)
-	for verifC39Goroutines()-verifC39Baseline != open && time.Now().Before(deadline) {
+	for verifC39Goroutines()-verifC39Baseline != open {
+		if !time.Now().Before(deadline) {
+			verifC39Wasted += 150 * time.Millisecond
+			break
+		}
 		time.Sleep(200 * time.Microsecond)
 	}
 
@@ -262,6 +277,9 @@ func verifC39Cleanup() {
 }
 
 func verifC39Exec(op string) string {
+	if verifC39Wasted > verifC39WasteBudget {
+		return "harness-gave-up"
+	}
 	f := strings.Fields(op)
 	switch f[0] {
 	case "reset":
@@ -275,7 +293,11 @@ func verifC39Exec(op string) string {
 		verifC39Dead = false
 		// every goroutine of the previous history has been cancelled and has closed its done channel;
 		// wait until they have really returned (normally microseconds)
-		for dl := time.Now().Add(2 * time.Second); verifC39Goroutines() != 0 && time.Now().Before(dl); {
+		for dl := time.Now().Add(2 * time.Second); verifC39Goroutines() != 0; {
+			if !time.Now().Before(dl) {
+				verifC39Wasted += 2 * time.Second
+				break
+			}
 			time.Sleep(200 * time.Microsecond)
 		}
 		verifC39Baseline = verifC39Goroutines()
